@@ -16,7 +16,7 @@ def build(b, opt, extra=(), tag=''):
     core.run_gen(g)
     wdir = os.path.join(b, 'w' + opt + tag)
     os.makedirs(wdir, exist_ok=True)
-    inc = ['-I' + os.path.join(core.REPO, 'include'), '-I' + os.path.join(core.REPO, 'src'), '-I' + os.path.join(core.ROOT, 'world')]
+    inc = [*core.lib_flags(), '-I' + os.path.join(core.ROOT, 'world')]
     cmds, objs = [], []
     # the library: every load/store calls our hooks
     for s in core.repo_sources() + [os.path.join(core.ROOT, 'world', 'toy.c')]:
@@ -42,7 +42,7 @@ def writable_sections():
         os.makedirs(b, exist_ok=True)
         for s in core.repo_sources():
             o = os.path.join(b, core.objname(s))
-            cmds.append(['gcc', '-std=gnu99', '-O2', '-fPIC'] + extra + ['-I' + os.path.join(core.REPO, 'include'), '-I' + os.path.join(core.REPO, 'src'), '-c', s, '-o', o])
+            cmds.append(['gcc', '-std=gnu99', '-O2', '-fPIC'] + extra + [*core.lib_flags(), '-c', s, '-o', o])
             objs.append(o)
     # ... and of a client translation unit per public header (static inline functions kept): a function-local static in a
     # header is writable state in every program that includes it, although no library object contains it
@@ -91,7 +91,7 @@ def external_references(bdir):
         cmds, objs = [], []
         for s_ in core.repo_sources():
             o = os.path.join(d, core.objname(s_))
-            cmds.append(['gcc', '-std=gnu99', opt, '-I' + os.path.join(core.REPO, 'include'), '-I' + os.path.join(core.REPO, 'src'), '-c', s_, '-o', o])
+            cmds.append(['gcc', '-std=gnu99', opt, *core.lib_flags(), '-c', s_, '-o', o])
             objs.append(o)
         core.par(cmds)
         for o in objs:
@@ -168,7 +168,7 @@ def free_running_tsan(b, tier):
     srcs = core.repo_sources() + sorted(glob.glob(os.path.join(g, 'wrap_*.c'))) + [os.path.join(core.ROOT, 'world', w) for w in WSRC] + \
         [os.path.join(core.ROOT, 'world', 'toy.c'), os.path.join(core.ROOT, 'engine', 'tsan_free.c'), os.path.join(g, 'rows_gen.c')]
     exe = os.path.join(d, 'tsan_free')
-    r = core.sh(['clang', '-std=gnu99', '-O1', '-g', '-fsanitize=thread', '-DW_TLS=__thread', '-I' + os.path.join(core.REPO, 'include'), '-I' + os.path.join(core.REPO, 'src'), '-I' + os.path.join(core.ROOT, 'world'),
+    r = core.sh(['clang', '-std=gnu99', '-O1', '-g', '-fsanitize=thread', '-DW_TLS=__thread', *core.lib_flags(), '-I' + os.path.join(core.ROOT, 'world'),
                  '-I' + g, '-I' + os.path.join(core.ROOT, 'engine')] + srcs + ['-o', exe, '-lpthread'])
     if r.returncode != 0:
         return {'summary': 'not built: ' + r.stderr[-300:]}
